@@ -7,6 +7,8 @@ import Varlink.Client
 import VarlinkProofs.Lemmas.Basic
 import Varlink.Extracted.Code
 import Varlink.ExpectedCode
+import Varlink.JsonWF
+import VarlinkProofs.Props.C03
 namespace Varlink.C12
 open Varlink
 
@@ -140,6 +142,39 @@ theorem std_errors_typed (e : StdErr) : dispatchError e.name (some e.params) = .
   have n34 : str "org.varlink.service.InvalidParameter" ≠ str "org.varlink.service.MethodNotImplemented" := by decide
   cases e <;>
     simp [dispatchError, StdErr.name, StdErr.params, decodeOneString_strObj, n12, n13, n14, n23, n24, n34]
+
+/-! ### over the wire: the bytes `sendMessage` writes, read back by the client's `receive` -/
+
+/-- **End to end, bytes included**: when a handler sends a well-formed user error with a JSON object as
+    parameters on a call that is not oneway, the service writes exactly one frame, and the client decoding
+    those bytes gets the generic error with exactly that name and JSON-equal parameters (same members,
+    strings byte for byte, numbers digit for digit). -/
+theorem user_error_over_the_wire (c : CallIn) (k : Bool) (n : Bytes) (p : JVal) (h : WellFormedErrorName n)
+    (ho : c.oneway = false) (hn : utf8Ok n = true) (hp : p.wf = true) (hnull : p ≠ .null)
+    (hd : p.depth < maxDepth) :
+    ∃ f, (Call.step c k (.replyError n (.val p))).2.1 = [f] ∧
+      receiveFrame (render (replyObj f)) = .remoteError n (some p) := by
+  have hf := accepted_frame c k n h ho (some p)
+  refine ⟨_, hf, ?_⟩
+  have hne : n ≠ [] := by
+    obtain ⟨i, m, rfl, hi, _, _⟩ := h
+    intro e
+    cases i with
+    | nil => exact hi rfl
+    | cons x xs => simp at e
+  rw [Varlink.C03.error_roundtrip n p hn hne hp hnull hd]
+  exact user_error_end_to_end n h (some p)
+
+/-- the same for the four standard errors: the bytes the typed helpers write come back as the typed
+    error carrying the name the service put in -/
+theorem std_error_over_the_wire (e : StdErr) (hpay : e.params.wf = true) :
+    receiveFrame (render (replyObj { params := some e.params, continues := false, error := e.name })) = .stdError e := by
+  have hname : utf8Ok e.name = true := by cases e <;> decide
+  have hne : e.name ≠ [] := by cases e <;> decide
+  have hnull : e.params ≠ .null := by cases e <;> simp [StdErr.params, strObj]
+  have hd : e.params.depth < maxDepth := by cases e <;> simp [StdErr.params, strObj, JVal.depth, JMembers.depth, maxDepth]
+  rw [Varlink.C03.error_roundtrip e.name e.params hname hne hpay hnull hd]
+  exact std_errors_typed e
 
 /-! ### Non-vacuity -/
 example : WellFormedErrorName (str "org.example.Err") :=
